@@ -1,5 +1,5 @@
 import HH.Proofs.MachineLemmas
-import HH.Props.C18Facts
+import HH.Props.C15Facts
 import HH.Props.C13
 /-!
 # C15 — hasher instances are isolated: no hidden shared state
